@@ -41,8 +41,14 @@ def heads():
     return sorted(out)
 
 
+# the statement types the library documents through its keyword tables at the pinned commit; a word that
+# stops being typed DML/DDL is a violation, a word that newly is one is tested as well
+PINNED_HEADS = ['alter', 'commit', 'create', 'delete', 'drop', 'insert', 'merge', 'replace', 'rollback', 'select',
+                'start', 'truncate', 'update', 'upsert']
+
+
 def cases(tier):
-    hs = heads()
+    hs = sorted(set(PINNED_HEADS) | set(heads()))
     for h in hs:
         for pre, cs, (cont, ck) in itertools.product(PREFIX, CASES, CONT):
             yield {'text': pre + recase(h, cs) + cont, 'expect': h.upper(), 'cube': f'head=dml-ddl|cont={ck}'}
